@@ -74,7 +74,7 @@ def run(chk):
                     continue
                 vals = range(w + 1) if w <= 255 else sorted(set(
                     list(range(0, 260)) + list(range(65270, 65536)) + [257 * k for k in range(256)] +
-                    [rng.randrange(65536) for _ in range(chk.pick(100, 3000))]))
+                    [rng.randrange(65536) for _ in range(chk.pick(100, 12000))]))
                 for x in vals:
                     kw = base(v, scp)
                     kw[f] = x
@@ -85,7 +85,7 @@ def run(chk):
     argvals = [0, 1, 0x80000000, 0xFFFFFFFF, 0x01020304, 0xA5A5A5A5]
     for na in range(4):
         for plen in range(0, 17):
-            for rep in range(chk.pick(2, 12)):
+            for rep in range(chk.pick(2, 40)):
                 kw = base(rep % 2, True)
                 for f, w in WIDTHS.items():
                     kw[f] = rng.randint(0, w)
@@ -96,7 +96,7 @@ def run(chk):
                 one(kw, True)
     # raw datagrams of every length 14..30 decoded with every argument count
     for ln in range(14, 31):
-        for rep in range(chk.pick(3, 20)):
+        for rep in range(chk.pick(3, 80)):
             b = bytes([0, 0, rng.choice([0x87, 0x07])] + [rng.randrange(256) for _ in range(ln - 3)])
             for n in range(4):
                 q = SCPPacket.from_bytestring(b, n_args=n)
@@ -105,7 +105,7 @@ def run(chk):
             evs.append(["sdp_dec", list(b), rec_of(q, False)])
             chk.note_case(("raw", b.hex()))
     # random SDP packets with payloads
-    for rep in range(chk.pick(200, 3000)):
+    for rep in range(chk.pick(200, 15000)):
         kw = dict(reply_expected=rng.random() < 0.5, data=bytes(rng.randrange(256) for _ in range(rng.randint(0, 20))))
         for f, w in WIDTHS.items():
             if f not in ("cmd_rc", "seq"):
@@ -113,7 +113,7 @@ def run(chk):
         one(kw, False)
 
     # the same packet object encoded again after fields were assigned (packets are mutable objects)
-    for rep in range(chk.pick(300, 4000)):
+    for rep in range(chk.pick(300, 20000)):
         scp = rng.random() < 0.7
         kw = dict(reply_expected=rng.random() < 0.5, data=bytes(rng.randrange(256) for _ in range(rng.randint(0, 6))))
         for f, w in WIDTHS.items():
